@@ -480,6 +480,7 @@ class Ctx:
         self.relaxed = []
         self.extra_constraints = []
         self.floor_memo = {}
+        self.reach_len = -1
 
     # -- solver helpers
     def _check(self, *extra):
@@ -781,12 +782,23 @@ class Ctx:
             formula = formula.e
         if isinstance(formula, bool):
             formula = z3.BoolVal(formula)
-        r0, _ = self._check()
+        if self.reach_len == len(self.pc):
+            r0 = z3.sat      # path condition unchanged since its last sat check
+        else:
+            r0, _ = self._check()
         if r0 == z3.unsat:
             st.claims -= 1
             raise Abort()
         if r0 == z3.sat:
-            st.reach_sat += 1
+            if self.reach_len != len(self.pc):
+                st.reach_sat += 1
+            self.reach_len = len(self.pc)
+        fs = z3.simplify(formula)
+        if z3.is_true(fs) and r0 == z3.sat:
+            # trivially true on a reachable path: no query needed
+            st.discharged += 1
+            self.ex.record_claim(name, 'discharged', self, None, detail)
+            return True
         r, m = self._check(z3.Not(formula))
         if r == z3.unsat:
             st.discharged += 1
